@@ -276,7 +276,10 @@ def check_tree_wellformed(tree, counters: Optional[dict] = None, check_balance: 
             if _sl(pm.templated_slice) != ht:
                 add("node_templated_span_ne_children", {"type": node.get_type(), "span": _sl(pm.templated_slice), "hull": ht, "path": path[-4:]})
             prev = None
-            for m in kpm:
+            # NOTE: zero-width children (metas / template placeholders) are not
+            # ordered against their neighbours: a placeholder can legitimately
+            # sit in the middle of a token that spans it.
+            for m in [k.pos_marker for k in kids if k.raw != ""]:
                 if prev is not None and m.templated_slice.start < prev.templated_slice.start:
                     add("children_out_of_order", {"type": node.get_type(), "a": _sl(prev.templated_slice), "b": _sl(m.templated_slice), "path": path[-4:]})
                     break
